@@ -256,4 +256,29 @@ theorem run_induct_rf {c : LoopCfg} {R : St → Prop} (P : G → Prop)
     refine ih _ (hs g e h0 ?_) h2
     intro ops he; subst he; exact h1
 
+/-! ## the force flag along schedules
+
+  The event language has no arming event (`armForce` is applied by the test harness only,
+  `LsModel/DriverLoop.lean` "loop.overdue") and `go` never arms (`go_force`): along every schedule
+  from an unarmed state — in particular from `init` — no snapshot is ever overdue. -/
+
+theorem step_unarmed {c : LoopCfg} {g : G} (h : g.st.forceArmed = false) (e : Ev) :
+    (step c g e).st.forceArmed = false := by
+  cases e with
+  | go i => exact go_unarmed h
+  | app ops => exact (appCommit_force g.st ops).trans h
+  | list => exact h
+  | others bs => exact h
+
+theorem forceArmed_runFrom {c : LoopCfg} (g : G) (evs : List Ev) (h : g.st.forceArmed = false) :
+    (runFrom c g evs).st.forceArmed = false := by
+  induction evs generalizing g with
+  | nil => exact h
+  | cons e es ih => exact ih (step c g e) (step_unarmed h e)
+
+/-- **no schedule from `init` ever arms the force flag** -/
+theorem forceArmed_run (c : LoopCfg) (env : Env) (b : Bucket) (evs : List Ev) :
+    (run c env b evs).st.forceArmed = false :=
+  forceArmed_runFrom _ evs rfl
+
 end Ls.Loop
